@@ -81,12 +81,17 @@ def comparator_obligations(ctx, tf, clause):
             if len(in_body) != 1 or par.orelse:
                 msgs.append("the guarded arm does not contain exactly one Statement(...) construction (or has an else arm)")
             # no other Statement construction in the enclosing loop nest
+            # the candidate loop nest: the loop the filter sits in, and outwards as long as a loop is the only statement of the
+            # loop around it (the class loop of a caller the nest was written into is not part of it)
             loop = par
             top = None
             while loop in pm:
                 loop = pm[loop]
                 if isinstance(loop, (ast.For, ast.While)):
                     top = loop
+                    break
+            while top is not None and isinstance(pm.get(top), (ast.For, ast.While)) and pm[top].body == [top]:
+                top = pm[top]
             if top is None:
                 msgs.append("filter is not inside a candidate loop")
             else:
